@@ -529,7 +529,7 @@ _also(["C15.alloc_failure_"], ["C06"])
 _scn_auth = dict(_scn, harness="harness/scn_auth.c", flags=_scn["flags"] + ["--no-bounds-check"],
                  unwindset=dict(_scn["unwindset"], **{"verif_crypt.0": 14, "verif_write.0": 9, "maybe_crash.0": 9, "clear_password.0": 14,
                                                       "get_groups.0": 4, "get_groups.1": 4, "is_in_groups.0": 4, "add_groups.0": 4, "fill_salt.0": 18,
-                                                      "get_salt_from_passwd.0": 6, "verif_router_snprintf.0": 10, "verif_router_snprintf.1": 5, "strcat.0": 24, "strchr.0": 24, "write_user_data.0": 6,
+                                                      "get_salt_from_passwd.0": 6, "verif_router_snprintf.0": 10, "verif_router_snprintf.1": 5, "strcat.0": 24, "strchr.0": 24, "write_user_data.0": 7,
                                                       "harness_crash_atomic.0": 4, "verif_ftruncate.0": 9, "cJSON_GetObjectItem.0": 12}),
                  stubs=_SCN_STUBS + ["crypt: injective model crypt(pw, salt) = \"H\" ++ pw", "ftruncate/lseek/write: 8-byte file model with symbolic error / short-write outcomes and a symbolic crash point",
                                      "cJSON_Print of the database: returns the fixed new content \"NEW\"", "cjet_get_random_bytes: fixed bytes",
@@ -553,8 +553,8 @@ for _c, _nm, _rch in ((0, "unauthenticated", ["refused"]), (1, "own_account", ["
       symbolic="(concrete requester/target per obligation)", assumes=["the requester's own authentication succeeds where the case needs it"],
       bounds="database of 10 users; one passwd request (%s); file writes complete" % _nm, **_scn_auth)
 O(id="C20.crash_atomic", props=["C20"], entry="harness_crash_atomic", reach=["completed", "crashed", "failed"], functions=["write_user_data"],
-  symbolic="ftruncate failure, outcome of each of up to 3 write calls (error / short by 1..3 bytes / complete), crash point after any of the first 7 file-system calls",
-  assumes=[], bounds="old content 4 bytes, new content 3 bytes, <= 3 write calls", **_scn_auth)
+  symbolic="ftruncate failure, outcome of each write call (error / short by 1..3 bytes / complete / for the first two calls also: nothing written, return 0), crash point after any of the first 9 file-system calls",
+  assumes=[], bounds="old content 4 bytes, new content 3 bytes, <= 5 write calls", **_scn_auth)
 PROPERTY_NOTES["C20"] = {
     "composition": "passwd_*: through the real dispatcher, handle_change_password and change_password, a password change is carried out iff the "
                    "requester is authenticated and the target exists, is not read-only and is the requester's own account or the requester is "
@@ -1103,6 +1103,11 @@ O(id="C20.salt_alphabet", props=["C20"], entry="harness_fill_salt", reach=["long
 for _c, _nm in ((9, "after_failed_authentication_as_the_target"), (10, "after_failed_authentication_as_admin"), (11, "after_failed_admin_claim_of_an_authenticated_user")):
     O(id="C20.passwd_" + _nm, props=["C20", "C08", "C02"], entry="harness_passwd", defines=["PWCASE=%d" % _c], reach=["refused"], functions=_AF,
       symbolic="(concrete requester/target)", assumes=["the failed authentication is answered with an error"], bounds="database of 10 users; %s" % _nm.replace("_", " "), **_scn_auth)
+
+for _c, _nm in ((12, "false"), (13, "null"), (14, "number_zero")):
+    O(id="C20.passwd_requester_admin_entry_" + _nm, props=["C20", "C08", "C02"], entry="harness_passwd", defines=["PWCASE=%d" % _c], reach=["refused"], functions=_AF + ["is_admin"],
+      symbolic="(concrete requester/target)", assumes=["the requester's own authentication succeeds"],
+      bounds="database of 13 users; the requester's account carries an \"admin\" entry that is %s; it asks to change another account's password" % _nm.replace("_", " "), **_scn_auth)
 
 # ------------------------------------------------------------------------------------------------ round 6 (groups A, B) strengthening
 O(id="C01.history_own_fetch", props=["C01", "C04", "C07"], harness="harness/scn_hist.c", entry="harness_history", defines=["HIST=6"],
